@@ -2,6 +2,7 @@
 import hashlib
 import json
 import os
+import re
 import shutil
 import subprocess
 import sys
@@ -144,3 +145,41 @@ def write_replay(prop, clause, payload):
         json.dump(payload, f, indent=1)
         f.write("\n")
     return path
+
+
+def purge_crate_artifacts(target_root, scratch):
+    """Remove the artifacts of the crate under verification (not of its dependencies) from a shared
+    cargo target directory. Cargo hashes path packages relative to their workspace root, so two scratch
+    copies of different trees share fingerprints, and freshness is judged by the mtimes of the source
+    files recorded at the *previous* build (possibly another, still existing scratch copy): without
+    this a run can silently reuse a binary built from a different tree. Call with the target lock held."""
+    name = None
+    try:
+        for line in open(os.path.join(scratch, "Cargo.toml")):
+            m = re.match(r'\s*name\s*=\s*"([^"]+)"', line)
+            if m:
+                name = m.group(1)
+                break
+    except OSError:
+        pass
+    if not name:
+        return 0
+    dash, under = name, name.replace("-", "_")
+    removed = 0
+    for root, dirs, files in os.walk(target_root):
+        base = os.path.basename(root)
+        if base in (".fingerprint", "build", "incremental"):
+            for d in list(dirs):
+                if d.startswith(dash + "-") or d.startswith(under + "-") or d == dash:
+                    shutil.rmtree(os.path.join(root, d), ignore_errors=True)
+                    dirs.remove(d)
+                    removed += 1
+        elif base == "deps":
+            for f in files:
+                if f.startswith(under + "-") or f.startswith("lib" + under + "-") or f.startswith(dash + "-"):
+                    try:
+                        os.unlink(os.path.join(root, f))
+                        removed += 1
+                    except OSError:
+                        pass
+    return removed
